@@ -33,6 +33,12 @@ CLAIMED = {
             "banner handling (_handleInitial) is modelled and compared but its chunk-invariance lemma is not yet in Properties/C01.v; "
             "Twisted transport trusted; VMware mid-message match is a recorded known finding",
             "Coq proof (induction over chunk lists, generic expect-engine lemmas) + regenerated formats/expect graph + differential correspondence"),
+    "C15": ("Coq theorem about the handler-family model of rfb.RFBClient: for every state, every well-formed pending expectation and "
+            "every buffer of bytes 0..255 the expect loop terminates within 3*len+3 handler invocations (potential argument: zero-length "
+            "steps lower a rank <= 2; 45-case analysis of the handlers incl. the ZRLE tile walk by induction); the real client runs every "
+            "hostile stream under exactly that invocation limit in a guarded child process, and its invocation counts equal the model's",
+            "loops inside handlers are structural recursions over the received block / inflated tile stream; zlib and pixel expansion of fills excluded as stated",
+            "Coq proof (well-founded measure, case analysis of all handlers) + regenerated formats/expect graph + differential correspondence incl. handler-invocation counts"),
 }
 NOT_YET = "check not built yet in this session (planned Coq model in DESIGN.md §3); not claimed"
 
